@@ -54,8 +54,10 @@ ASSUMPTIONS = ["geometry matrices are float64 ndarrays with non-negative entries
                "counted, retried through **kwargs with maxiter=50n, and that result is judged",
                "a recorder on scipy.optimize.nnls only attributes failed certificates (wrapper vs third-party solver); "
                "verdicts are always taken on what the cherab function returned"]
+ASAN_MODULES = ['cherab.tools.inversions.sart']
+ASAN = dict(cases=3000, workers=8, timecap=240)
 QUICK = dict(cases=3000, workers=2, timecap=38)
-THOROUGH = dict(cases=150000, workers=16, timecap=600)
+THOROUGH = dict(cases=100000, workers=16, timecap=600)
 REQUIRED = {"sart_iterate": 1000, "csart_iterate": 800, "sart_conv": 500, "csart_conv": 500, "sart_stop": 50,
             "csart_stop": 50, "sart_nonneg": 80, "csart_nonneg": 80, "fixed_point": 100, "nnls_kkt": 50,
             "nnls_rnorm": 50, "lstsq_normal": 30, "lstsq_residual": 10, "svd_normal": 20, "svd_min_norm": 10,
